@@ -179,6 +179,9 @@ class Model:
         self.committed = (copy.deepcopy(self.rows), copy.deepcopy(self.assoc))
         self.dirty = set()  # objects with attribute events since the last flush
         self.reltouched = set()  # (link, child) whose parent was assigned (even to the same object) since the last flush
+        self.mmtouched = set()  # (m2m, left, right) pairs appended or removed since the last flush
+        self.stale = set()  # objects whose in-memory collections still list an object deleted by an earlier flush (until expiry)
+        self.taint = set()  # catalogued defects after which memory and model may differ until the next commit ('f5')
         self.soft = set()  # (link, child): de-associated through the many-to-one side; in lenient mode the orphan rule may or may not fire
         self.strict_orphans = False
         self.quirks = frozenset()
@@ -197,6 +200,9 @@ class Model:
         m.deparented = set(self.deparented)
         m.dirty = set(self.dirty)
         m.reltouched = set(self.reltouched)
+        m.mmtouched = set(self.mmtouched)
+        m.stale = set(self.stale)
+        m.taint = set(self.taint)
         m.fuzzy = set(self.fuzzy)
         m.soft = set(self.soft)
         m.strict_orphans = self.strict_orphans
@@ -414,6 +420,8 @@ class Model:
             # one-to-one: the parent's previous partner is displaced
             for c2 in self.children(link, p):
                 if c2 != c:
+                    if via == "m2o":
+                        self.taint.add("f5")  # the library leaves the displaced child's own attribute untouched
                     self._set_parent(link, c2, None, via)
         if p is not None:
             # save-update cascade on the side the application touched (2.x: no backref cascade); it runs before the
@@ -467,6 +475,7 @@ class Model:
             if rr not in lst:
                 lst.append(rr)
             self.dirty.update((x, y))
+            self.mmtouched.add((r.name, l, rr))
             casc = r.c_l if kind == "l" else r.c_r
             if "save-update" in casc and self.in_sess(x) and not self.in_sess(y):
                 self.add_cascaded(y)
@@ -482,6 +491,7 @@ class Model:
             if rr in lst:
                 lst.remove(rr)
             self.dirty.update((x, y))
+            self.mmtouched.add((r.name, l, rr))
 
     def replace(self, x, key, ys):
         kind, r = self.spec.find_rel(self.objs[x].cls, key)
@@ -729,6 +739,11 @@ class Model:
                     if (m.objs[d].cls != m.objs[n].cls and spec.root(m.objs[d].cls) == spec.root(m.objs[n].cls)
                             and m.objs[d].dbpk == m.pk(n)):
                         mixed_switch = True
+        if any(n in m.stale for n in dele):
+            open_ = True  # its collection still lists an object deleted by an earlier flush (documented staleness until expiry)
+        for mn, l_, r_ in m.mmtouched:
+            if l_ in dele or r_ in dele:
+                open_ = True  # collection of / with an object that is being deleted was modified in the same flush
         oldkeys = {(spec.root(o.cls), old) for n, o, c, old, new_ in moves} | {(spec.root(m.objs[d].cls), m.objs[d].dbpk) for d in dele}
         popped = []
         for n, o, c, old, new_ in moves:
@@ -864,12 +879,18 @@ class Model:
                 del m.par[k]
         for k in list(m.mm):
             if m.objs[k[1]].life == "X":
+                for r in m.mm[k]:
+                    if m.objs[r].life == "S":
+                        m.stale.add(r)
                 del m.mm[k]
             else:
+                if any(m.objs[r].life == "X" for r in m.mm[k]):
+                    m.stale.add(k[1])
                 m.mm[k] = [r for r in m.mm[k] if m.objs[r].life != "X"]
         m.deparented = {(l, c) for (l, c) in m.deparented if m.objs[c].life != "X"}
         m.dirty = set()
         m.reltouched = set()
+        m.mmtouched = set()
         m.rows, m.assoc = rows, assoc
         m.open = False
         if warn_dead:
@@ -931,6 +952,8 @@ class Model:
             if o.life == "X":
                 o.life = "D"  # deleted objects become detached; they have no row
                 o.dbpk = None
+        self.stale = set()
+        self.taint = set()
         self.reload()
 
     def reload(self):
@@ -1017,7 +1040,7 @@ class Model:
     def canon(self):
         objs = tuple((n, o.cls, o.life, o.marked, o.oos, tuple(sorted(o.vals.items(), key=repr))) for n, o in sorted(self.objs.items()))
         return (objs, tuple(sorted(self.par.items(), key=repr)), tuple(sorted((k, tuple(v)) for k, v in self.mm.items())),
-                tuple(sorted(self.deparented)), tuple(sorted(self.soft)), tuple(sorted(self.dirty)), tuple(sorted(self.reltouched)), repr(self.rows_as_lists()), self.dead, self.open)
+                tuple(sorted(self.deparented)), tuple(sorted(self.soft)), tuple(sorted(self.dirty)), tuple(sorted(self.reltouched)), tuple(sorted(self.mmtouched)), tuple(sorted(self.stale)), tuple(sorted(self.taint)), repr(self.rows_as_lists()), self.dead, self.open)
 
 
 # ---------------------------------------------------------------- alphabet
